@@ -17,6 +17,7 @@ RULE = (
     "calls all automatically-versioned functions against an empty store, then process B (different hash seed, different definition and query order) repeats the calls on that store: "
     "B executes no function body and returns the same values. Non-trivial = the program has an order-sensitive ingredient (set literal with >= 2 members, >= 2 dependencies, >= 2 tracked "
     "variables or a cycle) and the configurations differ in hash seed and order; distinct by program."
+    " Round 5: module-level sets with members of several types (missing-value markers: strings next to None / numbers), renamed definitions (builtin names, very long names)."
 )
 ASSUMPTIONS = [
     "one interpreter version/platform (CPython 3.12); cross-version stability of code hashes is out of scope",
